@@ -84,7 +84,7 @@ def run(tier):
         return [("lit", " " + {"mk": BSIG, "me": ESIG, "mb": BEGIN}[kind])]
     for nh in (0, 1, 2):
         for pshape in payload_shapes:
-            for ns in (1, 2, "blank-inside", "blank-first"):
+            for ns in (1, 2, "blank-inside", "blank-first", "checksum-then-line", "checksum-last"):
                 lines = [("lit", BEGIN)]
                 phases = ["marker"]
                 for i in range(nh):
@@ -101,12 +101,15 @@ def run(tier):
                 lines.append(("lit", BSIG))
                 phases.append("payload-end")
                 sl = []
-                sig_shape = {"blank-inside": ["s", "", "s"], "blank-first": ["", "s", "s"]}.get(ns, ["s"] * (ns if isinstance(ns, int) else 0))
+                sig_shape = {"blank-inside": ["s", "", "s"], "blank-first": ["", "s", "s"], "checksum-then-line": ["s", "=c", "s"], "checksum-last": ["s", "s", "=c"]}.get(ns, ["s"] * (ns if isinstance(ns, int) else 0))
                 if not isinstance(ns, int) and (nh, pshape) != (1, payload_shapes[1]) and nh != 0:
                     continue       # signature blocks with a blank line: two header variants x one payload shape suffice
                 for i, k in enumerate(sig_shape):
                     if k == "":
                         lines.append(("lit", ""))
+                    elif k == "=c":        # looks like an armour checksum line
+                        lines.append(("lit", "=AbCd"))
+                        sl.append(("lit", "=AbCd"))
                     else:
                         lines.append(line_atom("sig%d" % i))
                         sl.append(line_atom("sig%d" % i))
@@ -136,7 +139,7 @@ def run(tier):
                 n += 1
                 C.ob("C19/junk", label, got == [("err", "JunkAfterPgpSignature")], "yields %s, expected Err(JunkAfterPgpSignature)" % got, f["sp"])
                 # any further line counts, also an empty or blank-only one
-                for jn, jl in (("an empty line", [("lit", "")]), ("a blank-only line", [("lit", "  ")])):
+                for jn, jl in (("an empty line", [("lit", "")]), ("a blank-only line", [("lit", "  ")]), ("another BEGIN SIGNATURE marker", [("lit", BSIG)]), ("another BEGIN MESSAGE marker", [("lit", BEGIN)])):
                     got, I = call(build(lines + [jl], True))
                     n += 1
                     C.ob("C19/junk", "%s + %s" % (label, jn), got == [("err", "JunkAfterPgpSignature")], "yields %s, expected Err(JunkAfterPgpSignature)" % got, f["sp"])
